@@ -23,7 +23,7 @@ RULE = ("case = one EVSE configuration with a batch of pilots placed at every ac
         "with or without a connected EV, or one generated network whose advertised values are applied; every set_pilot call is one "
         "evaluation; non-trivial = a batch with both accepted and rejected pilots within 2e-3 A of a boundary; distinct = distinct descriptors")
 ASSUMPTIONS = [
-    "non-finite pilots (NaN, -inf: never allowable; +inf: allowable exactly for a continuous range without upper end) are offered in 3% of the direct calls; an advertised infinite maximum is counted, not applied",
+    "non-finite pilots (NaN, -inf: never allowable; +inf: allowable exactly for a continuous range without upper end) are offered in 3% of the direct calls; an advertised infinite maximum is applied like any other advertised value",
     "guard band 1e-9 A around each acceptance boundary",
     "EV attached for rejection side-effect checks has a two-stage battery; energy and battery compared exactly (no charge may happen on rejection)",
 ]
@@ -261,9 +261,11 @@ def _apply(obs, evse, value, src, nd):
     except Exception:
         obs.violate("advertised_not_numeric", f"{src}: {value!r}")
         return
-    if not math.isfinite(v):
-        obs.ev("advertised_infinite_not_applied")
+    if math.isnan(v) or v == -math.inf:
+        obs.violate("advertised_not_a_pilot", f"{src}: {value!r}")
         return
+    if v == math.inf:
+        obs.ev("advertised_infinite_applied")  # a range without upper end advertises inf, and must then take it
     obs.ev("advertised_values_applied")
     try:
         evse.set_pilot(value, 208, 5)
@@ -312,6 +314,12 @@ def _run_advert(case, obs):
                 # a continuous station advertises a range: its interior is advertised too
                 vals += [("interior of Interface.allowable_pilot_signals range", x) for x in
                          ((lo + hi) / 2, lo + (hi - lo) * rng.random(), lo + (hi - lo) * 0.01)]
+            # the limits the network cache and the interface advertise are the station's own (also after the JSON round trip)
+            for src, v in vals:
+                if src.endswith(("max_pilot_signals", "max_pilot_signal", ".max_pilot")) and not float(v) == float(evse.max_rate):
+                    obs.violate("advertised_limit_differs_from_station", f"{src} = {v!r}, station {sid} max_rate {evse.max_rate!r}", source=src)
+                if src.endswith(("min_pilot_signals", "min_pilot_signal", ".min_pilot")) and not float(v) == float(evse.min_rate):
+                    obs.violate("advertised_limit_differs_from_station", f"{src} = {v!r}, station {sid} min_rate {evse.min_rate!r}", source=src)
             for src, v in vals:
                 _apply(obs, evse, v, src, nd)
                 if tag != "network":
